@@ -378,6 +378,14 @@ class CondRun(BaseRun):
         self.outs += [k] + after
         self.monitor(c, t, n, k, before, after, run_before)
 
+    def already_cancelled(self, t):
+        e = self.st.get(t)
+        if not e:
+            return False
+        if e["kind"] == "evwait":
+            return next(x for x in self.q if x["t"] == t)["cancel"]
+        return bool(e.get("cancel") or e.get("native"))
+
     # ---- the queue automaton and the clause monitors ----
     def unnotified(self):
         return [e for e in self.q if not e["notified"]]
@@ -610,17 +618,25 @@ def make_run(machine: int, ntasks: int, fast: bool):
     return EventRun(ntasks) if machine == 0 else CondRun(ntasks, fast)
 
 
-def run_script(machine, ntasks, fast, flat_ops, quiesce=True, tolerate_invalid=False, alphabet=None):
+def run_script(machine, ntasks, fast, flat_ops, quiesce=True, tolerate_invalid=False, alphabet=None,
+               skip_invalid=False):
+    """Replay a flat op list on the real implementation.  skip_invalid: ops that are not possible in the current
+    state are dropped (used by the shrinker); r.script holds the ops that were really executed."""
     with make_run(machine, ntasks, fast) as r:
         r.invalid = False
         try:
             for i in range(0, len(flat_ops), 3):
-                r.do(flat_ops[i], flat_ops[i + 1], flat_ops[i + 2])
+                try:
+                    r.do(flat_ops[i], flat_ops[i + 1], flat_ops[i + 2])
+                except Invalid:
+                    if not skip_invalid:
+                        raise
         except Invalid:
             if not tolerate_invalid:
                 raise
             r.invalid = True
             return r
+        r.script = list(r.ops)
         r.enabled_at_end = alphabet(r) if alphabet else r.enabled()
         if quiesce:
             r.quiesce()
@@ -659,13 +675,16 @@ def random_cond_case(rng: random.Random, nsteps: int):
                 elif c == 4:
                     kind = r.st.get(t, {}).get("kind")
                     w = wcancel * (0.12 if kind == "reacq" else 1.0)
+                    if r.already_cancelled(t):
+                        w *= 0.08
                 else:
-                    w = wscope
+                    w = wscope * (0.15 if r.already_cancelled(t) else 1.0)
                 ws.append(w)
             c, t, n = rng.choices(en, ws)[0]
             if n is None:
                 n = rng.choice(NOTIFY_NS)
             r.do(c, t, n)
+        r.script = list(r.ops)
         r.quiesce()
         return r
 
@@ -678,9 +697,11 @@ def random_event_case(rng: random.Random, nsteps: int):
     with EventRun(ntasks) as r:
         for _ in range(nsteps):
             en = r.enabled()
-            ws = [{0: 4, 1: wset, 3: 4, 4: wcancel, 8: wscope}[c] for (c, t, n) in en]
+            ws = [{0: 4, 1: wset, 3: 4, 4: wcancel, 8: wscope}[c]
+                  * (0.1 if c in (4, 8) and r.st.get(t, {}).get("cancel") else 1.0) for (c, t, n) in en]
             c, t, n = rng.choices(en, ws)[0]
             r.do(c, t, n)
+        r.script = list(r.ops)
         r.quiesce()
         return r
 
@@ -737,12 +758,11 @@ def event_alphabet(r: EventRun):
     return [(c, t, n) for (c, t, n) in r.enabled() if c != 8]
 
 
-def shrink(run, still_bad):
-    """Drop ops while `still_bad(run')` holds.  `run` is a finished run; returns the smallest run found."""
+def shrink(run, still_bad, budget=600):
+    """Drop ops (and whatever becomes impossible as a consequence) while `still_bad(run')` holds."""
     best = run
-    ops = list(run.ops)
+    ops = list(getattr(run, "script", run.ops))
     improved = True
-    budget = 400
     while improved and budget > 0:
         improved = False
         i = len(ops) - 3
@@ -751,16 +771,21 @@ def shrink(run, still_bad):
             budget -= 1
             try:
                 r2 = run_script(run.machine, run.ntasks, getattr(run, "fast", False), cand, quiesce=True,
-                                tolerate_invalid=True)
+                                skip_invalid=True)
             except Exception:  # noqa: BLE001
                 r2 = None
-            if r2 is not None and not r2.invalid and still_bad(r2):
-                # keep only the ops of the candidate itself (quiescence ops are re-derived on replay)
-                ops = cand
+            if r2 is not None and len(r2.script) < len(ops) and still_bad(r2):
+                ops = list(r2.script)
                 best = r2
                 improved = True
-            i -= 3
+                i = min(i, len(ops)) - 3
+            else:
+                i -= 3
     return best, ops
+
+
+def _nodigits(m: str) -> str:
+    return "".join("#" if ch.isdigit() else ch for ch in m)
 
 
 def replay_dict(run, ops=None, **extra):
@@ -849,13 +874,13 @@ def check(tier: str) -> int:
     # ---- decide ----
     reported = set()
     for r, msg in monitor_hits:
-        key = msg.split(": ", 1)[-1][:40]
+        key = _nodigits(msg.split(": ", 1)[-1])[:40]
         if key in reported or len(reported) >= 4:
             continue
         reported.add(key)
-        want = msg.split(": ", 1)[-1][:25]
-        best, ops = shrink(r, lambda x: any(want in m for m in x.mon))
-        rep.violation(next(m for m in best.mon if want in m) if best is not r else msg,
+        want = key[:28]
+        best, ops = shrink(r, lambda x: any(want in _nodigits(m) for m in x.mon))
+        rep.violation(next((m for m in best.mon if want in _nodigits(m)), msg),
                       replay_dict(best, ops, kind="monitor", all_monitor_messages=best.mon[:6]))
     tie_broken = []
     if not proofs_ok:
@@ -870,8 +895,22 @@ def check(tier: str) -> int:
         d = None
         if disagreements:
             r, info = min(disagreements, key=lambda x: len(x[0].ops))
-            upto = (info["first_diff_step"] + 1) * 3
-            d = replay_dict(r, r.ops[:upto], **info)
+
+            def differs(x):
+                m = core.run_driver(exe, [x.case()])[0]
+                return m != x.outs
+
+            try:
+                best, ops = shrink(r, differs, budget=120)
+                m = core.run_driver(exe, [best.case()])[0]
+                w = best.width
+                k = next((i for i in range(min(len(m), len(best.outs))) if m[i] != best.outs[i]), 0) // w
+                info = {"impl": best.outs[k * w:(k + 1) * w], "model": m[k * w:(k + 1) * w], "first_diff_step": k,
+                        "ops_including_quiescence": best.readable()}
+                d = replay_dict(best, ops, **info)
+            except Exception:  # noqa: BLE001
+                upto = (info["first_diff_step"] + 1) * 3
+                d = replay_dict(r, r.ops[:upto], **info)
         rep.violation("; ".join(tie_broken), {"kind": "tie", "broken": tie_broken, "case": d,
                                               "vm_log": vm_log[-800:] if not vm_ok else ""}, no_input=True)
 
